@@ -313,6 +313,26 @@ partial def Doc.show (d : Doc) (v : VData) : String :=
       | k :: v :: rest => (hexBytes ((d.keyBytes k).getD []) ++ ":" ++ d.show (d.get (.slot v))) :: go rest
       | _ => []
     "{" ++ ",".intercalate (go (d.chain h)) ++ "}"
+instance : Inhabited JD.Val := ⟨.null⟩
+
+/-- the value as an ordered tree -/
+partial def Doc.toVal (d : Doc) (v : VData) : JD.Val :=
+  match v with
+  | .null => .null | .bool b => .bool b
+  | .i32 x => .num (.sint x) | .u32 x => .num (.uint x) | .f32 b => .num (.f32 b)
+  | .i64 s => .num (.sint (d.extOf s)) | .u64 s => .num (.uint (d.extOf s).toNat) | .f64 s => .num (.f64 (d.extOf s).toNat)
+  | .linked s => .str s | .owned n => .str (d.strBytes n) | .raw n => .raw (d.strBytes n)
+  | .arr h _ => .arr ((d.chain h).map (fun e => d.toVal (d.get (.slot e))))
+  | .obj h _ =>
+    let rec go : List Nat → List (List Byte × JD.Val)
+      | k :: v :: rest => ((d.keyBytes k).getD [], d.toVal (d.get (.slot v))) :: go rest
+      | _ => []
+    .obj (go (d.chain h))
+/-- slot ids of all variants reachable from `v` (elements, keys and member values, recursively) -/
+partial def Doc.reach (d : Doc) (v : VData) : List Nat :=
+  match v with
+  | .arr h _ | .obj h _ => (d.chain h).flatMap (fun e => e :: d.reach (d.get (.slot e)))
+  | _ => []
 partial def Doc.size (d : Doc) (v : VData) : Nat :=
   match v with | .arr h _ => (d.chain h).length | .obj h _ => (d.chain h).length / 2 | _ => 0
 partial def Doc.nesting (d : Doc) (v : VData) : Nat :=
